@@ -5,6 +5,7 @@
 From Coq Require Import ZArith List.
 From NV Require Import Common.Py Spec.TimeSpec Spec.TimingSpec Spec.ListSpec Model.Cvi Model.Timing Model.Waveform Model.Vector Model.Pickle
   Proofs.WfmProofs Proofs.C02Proofs Proofs.C13Proofs.
+From NV Require Model.Alias Proofs.C12Proofs.
 Open Scope Z_scope.
 
 (* a waveform / spectrum satisfying the pool invariant pickles to an object with the same observable
@@ -31,6 +32,17 @@ Theorem C13_eq_sound : forall a b, wf_eqb a b = true ->
   o_dtype a = o_dtype b /\ view a = view b /\ (has_scale (o_kind a) = true -> o_scale a = o_scale b).
 Proof. exact wf_eqb_slack. Qed.
 Print Assumptions C13_eq_sound.
+
+(* independence, on the memory model of C12: the copy's samples live in a freshly allocated array, so
+   after ANY interleaving of later writes/appends neither side sees the other *)
+Theorem C13_copy_is_independent : forall h o h' c ops, pickle_data h o = (h', c) -> (Alias.r_buf (Alias.ao_ref o) < length h)%nat ->
+  C12Proofs.agree (Alias.r_buf (Alias.ao_ref o)) (fst (C12Proofs.arun (Alias.ao_ref o) (h', c) ops))
+                  (fst (C12Proofs.run_side C12Proofs.src_only (Alias.ao_ref o) (h', c) ops)) /\
+  C12Proofs.agree (Alias.r_buf (Alias.ao_ref c)) (fst (C12Proofs.arun (Alias.ao_ref o) (h', c) ops))
+                  (fst (C12Proofs.run_side C12Proofs.obj_side (Alias.ao_ref o) (h', c) ops)) /\
+  snd (C12Proofs.arun (Alias.ao_ref o) (h', c) ops) = snd (C12Proofs.run_side C12Proofs.obj_side (Alias.ao_ref o) (h', c) ops).
+Proof. exact pickled_copy_independent. Qed.
+Print Assumptions C13_copy_is_independent.
 
 (* Timing: every Timing the constructor accepts pickles to itself (all members, None vs zero kept) *)
 Theorem C13_timing_roundtrip : forall mode ts off si tss t, timing_init mode ts off si tss = Ok t -> timing_pickle t = Ok t.
